@@ -45,6 +45,8 @@ FIXTURE_SEED = {
     'CLIMB': 'CL1-set-after-climb-node-is-new-parent',
     'PROGRESS': 'PG1-key-expire-root-no-removal',
     'SIZING': 'SZ3-seg-ctor-one-list-short',
+    'FRESH': 'FR1-map-insert-new-keeps-left',
+    'DROP': 'DR1-key-expire-root-drops-last-node',
 }
 # second fixture for LIVE on the seg family
 EXTRA_FIXTURES = {'C03': ['L4-seg-expiry-le'], 'C16': ['L4-seg-expiry-le']}
